@@ -269,6 +269,15 @@ func (env *SpecEnv) eval(e *Expr) (Val, error) {
 		}
 		return Val{}, fmt.Errorf("unknown identifier %q", e.Name)
 	case eUn:
+		if e.Op == "&" {
+			// address of an addressable local (a struct or cell the function allocates)
+			if e.Args[0].Kind == eIdent && env.fr != nil {
+				if v, ok := env.fr.vars["&"+e.Args[0].Name]; ok && v.LV != nil && v.LV.Ref != nil && v.LV.Base == nil {
+					return tv(v.LV.Ref, types.NewPointer(v.GoT)), nil
+				}
+			}
+			return Val{}, fmt.Errorf("%s: address of something that is not an addressable local", e)
+		}
 		a, err := env.eval(e.Args[0])
 		if err != nil {
 			return Val{}, err
